@@ -182,14 +182,9 @@ fn o2_2_escape_is_map1() {
     std::mem::forget(input);
 }
 
-//@ harness: o2_2_escape_is_map1_bmp1 props=C02,C08 tier=quick obl=O2.2 timeout=900 mem=12
-//@ desc: escape_html_text on every 1-char string with c < U+0800 (1- and 2-byte chars: all markup characters, C0/C1 controls, Latin) equals replace_html_char(c)
-//@ encodes: fragment::text::escape_html_text, fragment::text::replace_html_char
-#[kani::proof]
-#[kani::unwind(12)]
-fn o2_2_escape_is_map1_bmp1() {
+fn escape_is_map1(lo: u32, hi: u32) {
     let c1: char = kani::any();
-    kani::assume((c1 as u32) < 0x800);
+    kani::assume((c1 as u32) >= lo && (c1 as u32) <= hi);
     let mut input = String::with_capacity(4);
     input.push(c1);
     let got = escape_html_text(&input);
@@ -197,8 +192,7 @@ fn o2_2_escape_is_map1_bmp1() {
     let g = got.as_bytes();
     let a = e1.as_bytes();
     kani::assume(a.len() <= 10);
-    kani::cover!(a.len() == 4 && a[0] == b'&', "an entity");
-    kani::cover!(a.len() == 0, "a dropped char");
+    kani::cover!(a.len() > 0, "a char that is written");
     assert!(g.len() == a.len(), "O2.2 escape_html_text of one char has the escaper's length");
     let mut i = 0;
     while i < a.len() {
@@ -207,6 +201,33 @@ fn o2_2_escape_is_map1_bmp1() {
     }
     std::mem::forget(got);
     std::mem::forget(input);
+}
+
+//@ harness: o2_2_escape_is_map1_bmp1 props=C02,C08 tier=quick obl=O2.2 timeout=900 mem=12
+//@ desc: escape_html_text on every 1-char string with c < U+0800 (1- and 2-byte chars: all markup characters, C0/C1 controls, Latin) equals replace_html_char(c): the text leaf is built from the per-character escaper and nothing else
+//@ encodes: fragment::text::escape_html_text, fragment::text::replace_html_char
+#[kani::proof]
+#[kani::unwind(12)]
+fn o2_2_escape_is_map1_bmp1() {
+    escape_is_map1(0, 0x7FF);
+}
+
+//@ harness: o2_2_escape_is_map1_bmp3 props=C02,C08 tier=quick obl=O2.2 timeout=900 mem=12
+//@ desc: as o2_2_escape_is_map1_bmp1 for every 3-byte char U+0800..U+FFFF (incl. U+FFFE/U+FFFF and CJK)
+//@ encodes: fragment::text::escape_html_text, fragment::text::replace_html_char
+#[kani::proof]
+#[kani::unwind(12)]
+fn o2_2_escape_is_map1_bmp3() {
+    escape_is_map1(0x800, 0xFFFF);
+}
+
+//@ harness: o2_2_escape_is_map1_astral props=C02,C08 tier=quick obl=O2.2 timeout=900 mem=12
+//@ desc: as o2_2_escape_is_map1_bmp1 for every 4-byte char U+10000..U+10FFFF
+//@ encodes: fragment::text::escape_html_text, fragment::text::replace_html_char
+#[kani::proof]
+#[kani::unwind(12)]
+fn o2_2_escape_is_map1_astral() {
+    escape_is_map1(0x10000, 0x10FFFF);
 }
 
 //@ harness: o2_2_escape_is_map2_ascii props=C02,C08 tier=thorough obl=O2.2 timeout=1800 mem=30
